@@ -298,6 +298,65 @@ func c03_genC03(repo string) string {
 	})
 	sort.Strings(dynamic)
 
+	// ---- loops of parser/parser.go that advance with `p.nextToken()` and drop its result
+	// (nextToken stops advancing once p.err is set: such a loop must end some other way)
+	var advLoops []string
+	nLoops := 0
+	for _, cf := range files {
+		if cf.pkg != "parser" {
+			continue
+		}
+		for _, d := range cf.file.Decls {
+			fd, ok := d.(*ast.FuncDecl)
+			if !ok || fd.Body == nil {
+				continue
+			}
+			key := c03_funcKey(cf.pkg, fd)
+			k := 0
+			ast.Inspect(fd.Body, func(n ast.Node) bool {
+				fs, ok := n.(*ast.ForStmt)
+				if !ok {
+					return true
+				}
+				idx := k
+				k++
+				nLoops++
+				// unchecked advances directly in this loop's body (nested loops are listed on
+				// their own, function literals are not part of the loop)
+				unchecked := 0
+				var walk func(n ast.Node) bool
+				walk = func(n ast.Node) bool {
+					switch x := n.(type) {
+					case *ast.ForStmt, *ast.RangeStmt, *ast.FuncLit:
+						return false
+					case *ast.ExprStmt:
+						if call, ok := x.X.(*ast.CallExpr); ok {
+							if sel, ok := call.Fun.(*ast.SelectorExpr); ok && sel.Sel.Name == "nextToken" {
+								unchecked++
+							}
+						}
+					}
+					return true
+				}
+				for _, st := range fs.Body.List {
+					ast.Inspect(st, walk)
+				}
+				if unchecked > 0 {
+					cond := "(no condition)"
+					if fs.Cond != nil {
+						cond = c03Src(fset, fs.Cond)
+					}
+					advLoops = append(advLoops, fmt.Sprintf("%s#%d: for %s: %d unchecked nextToken()", key, idx, cond, unchecked))
+				}
+				return true
+			})
+		}
+	}
+	if nLoops < 20 {
+		panic("fewer than 20 for-loops found in parser/: the extractor no longer recognises them")
+	}
+	sort.Strings(advLoops)
+
 	var sb strings.Builder
 	sb.WriteString("namespace Risor.Generated.C03\n\n")
 	sb.WriteString(c03_leanStrList("panicSites", "explicit `panic(` calls outside the VM's recover (lexer, parser, ast, token, op, errz, tmpl, compiler, root package)", panics))
@@ -305,6 +364,7 @@ func c03_genC03(repo string) string {
 	sb.WriteString(c03_leanStrList("vmPanicSites", "explicit `panic(` calls in vm/ (inside or outside its recover scopes)", vmPanics))
 	sb.WriteString(c03_leanStrList("frontRecovers", "functions of those packages that call recover()", frontRecovers))
 	sb.WriteString(c03_leanStrList("vmRecovers", "functions of vm/ and object/thread.go that call recover()", vmRecovers))
+	sb.WriteString(c03_leanStrList("parserAdvanceLoops", "for-loops of parser/ (function#ordinal of the loop in the function, condition) whose body calls `p.nextToken()` as a statement, its result dropped, with the number of such calls directly in the loop (not in nested loops)", advLoops))
 	fmt.Fprintf(&sb, "def maxStackDepth : Nat := %d\ndef maxFrameDepth : Nat := %d\n\n", limits["MaxStackDepth"], limits["MaxFrameDepth"])
 	var names []string
 	for k := range opCount {
